@@ -719,6 +719,312 @@ theorem no_alias_pickle01 {w : World} (hw : Wf w) (hn : w.NodupInv) (h proto : N
       · cases hact; trivial
   · trivial
 
+/-! ### 4c. which operations need the side condition at all -/
+
+/-- slice assignment (any step) with the default `copy=True`: the side condition reduces to "the value does not
+list a member *of the assigned slice* twice" — the second exemption of the property text -/
+theorem dupFreeX_setslice_copy {w : World} (hn : w.NodupInv) {h : Nat} {sl : Slice} {it : Iter}
+    {old xs : List Nat} {b : Bool} {a : Int × Int × Int}
+    (h1 : w.view.atoms h = .ok old) (h2 : w.view.iter it = .ok (xs, b)) (h3 : sliceAdjust old.length sl = .ok a)
+    (hk : (xs.filter (fun x => decide (x ∈ pick old (sliceIdx a)))).Nodup) :
+    World.DupFreeX w (.setslice h sl it true) := by
+  have hp : planG w.view (.setslice h sl it true) =
+      .ok (.plan { tgt := .old h, pre := none, inc := xs,
+                   flags := xs.map (fun x => decide (x ∉ pick old (sliceIdx a))), edit := .setSlice sl }) := by
+    simp only [planG, h1, h2, h3, if_true]
+  have hold : ∀ fl : List Bool, World.oldOf w { tgt := .old h, pre := none, inc := xs, flags := fl, edit := Edit.setSlice sl } = old := by
+    intro fl; simp only [World.oldOf]; exact (World.view_atoms_ok h1).1
+  have holdn : old.Nodup := by rw [← (World.view_atoms_ok h1).1]; exact World.atomsOf_nodup hn h
+  simp only [World.DupFreeX, hp, World.DupFreeActX, hold]
+  have hkept : World.keptOf xs (xs.map (fun x => decide (x ∉ pick old (sliceIdx a)))) =
+      xs.filter (fun x => decide (x ∈ pick old (sliceIdx a))) := by
+    clear hk h2 hp hold
+    induction xs with
+    | nil => rfl
+    | cons x r ih =>
+      by_cases hx : x ∈ pick old (sliceIdx a)
+      · simp only [List.map_cons, hx, not_true_eq_false, decide_false, World.keptOf, List.filter_cons, decide_true, if_true]
+        rw [ih]
+      · simp only [List.map_cons, hx, not_false_eq_true, decide_true, World.keptOf, List.filter_cons, decide_false,
+          Bool.false_eq_true, if_false]
+        exact ih
+  rw [hkept]
+  refine ⟨hk, ?_⟩
+  intro y hy
+  simp only [List.mem_filter, decide_eq_true_eq] at hy
+  exact pick_sliceIdx_not_remain old sl a h3 holdn y hy.2
+
+/-- the operations for which the side condition of `no_alias` holds in every state that satisfies the invariant:
+everything except an explicit `copy=False`, slice assignment (see `dupFreeX_setslice_copy`) and a selection by
+index array / tuple / list of keys (which may name one member twice).  In particular `extend` with the default flag,
+slice and mask selections, `-=`, every copying form, pickling with any protocol, the constructor. -/
+def singleUseIndex : Index → Bool
+  | .arr _ => false
+  | .tuple _ => false
+  | .keys _ => false
+  | _ => true
+
+def AutoDupFree : Op → Prop
+  | .append _ _ c => c ≠ .no
+  | .insert _ _ _ c => c ≠ .no
+  | .extend _ _ c => c ≠ .no
+  | .setitem _ _ _ c => c = true
+  | .setslice _ _ _ _ => False
+  | .getitem _ ix => singleUseIndex ix = true
+  | _ => True
+
+theorem dupFreeActX_of_kept_nil (w : World) (p : Plan Nat) (h : World.keptOf p.inc p.flags = []) :
+    World.DupFreeActX w (.plan p) := by
+  simp [World.DupFreeActX, h]
+
+theorem dupFreeActX_replace (w : World) (p : Plan Nat) (he : p.edit = .replace) (h : (World.keptOf p.inc p.flags).Nodup) :
+    World.DupFreeActX w (.plan p) := by
+  refine ⟨h, ?_⟩
+  intro y _ hin
+  rw [he] at hin
+  simp [remainX, remain] at hin
+
+theorem copyFlags_dflt_kept (isS : Bool) (old xs : List Nat) :
+    (World.keptOf xs (copyFlags .dflt isS old xs)).Nodup ∧ ∀ y ∈ World.keptOf xs (copyFlags .dflt isS old xs), y ∉ old := by
+  cases isS with
+  | true => simp [copyFlags, World.keptOf_allTrue]
+  | false => simpa [copyFlags] using keptOf_memoFlags old xs
+
+theorem dupFreeX_auto {w : World} (hn : w.NodupInv) {op : Op} (ha : AutoDupFree op) : World.DupFreeX w op := by
+  unfold World.DupFreeX
+  split
+  case h_2 => trivial
+  case h_1 act hact =>
+  cases op with
+  | mkAtom p => simp only [planG] at hact; cases hact; trivial
+  | mkStru => simp only [planG] at hact; cases hact; exact dupFreeActX_of_kept_nil _ _ rfl
+  | addNew h p =>
+    simp only [planG] at hact
+    split at hact <;> cases hact
+    trivial
+  | append h a c =>
+    simp only [planG] at hact
+    split at hact
+    · cases hact
+    · split at hact
+      · cases hact
+      · cases hact
+        apply dupFreeActX_of_kept_nil
+        have : decide (c ≠ .no) = true := by simpa [AutoDupFree] using ha
+        simp [this, World.keptOf]
+  | insert h i a c =>
+    simp only [planG] at hact
+    split at hact
+    · cases hact
+    · split at hact
+      · cases hact
+      · cases hact
+        apply dupFreeActX_of_kept_nil
+        have : decide (c ≠ .no) = true := by simpa [AutoDupFree] using ha
+        simp [this, World.keptOf]
+  | extend h it c =>
+    simp only [planG] at hact
+    split at hact
+    · cases hact
+    · rename_i old hold
+      split at hact
+      · cases hact
+      · rename_i xs isS hit
+        cases hact
+        have hat := (World.view_atoms_ok hold).1
+        cases c with
+        | no => exact (ha rfl).elim
+        | yes => exact dupFreeActX_of_kept_nil _ _ (by simp [copyFlags, World.keptOf_allTrue])
+        | dflt =>
+          obtain ⟨k1, k2⟩ := copyFlags_dflt_kept isS old xs
+          refine ⟨k1, ?_⟩
+          intro y hy hin
+          simp only [remainX, remain, World.oldOf, hat] at hin
+          exact k2 y hy hin
+  | getitem h ix =>
+    simp only [planG] at hact
+    split at hact
+    · cases hact
+    · rename_i old hold
+      have holdn : old.Nodup := by rw [← (World.view_atoms_ok hold).1]; exact World.atomsOf_nodup hn h
+      cases ix with
+      | arr is => exact Bool.noConfusion (show false = true from ha)
+      | tuple ks => exact Bool.noConfusion (show false = true from ha)
+      | keys ks => exact Bool.noConfusion (show false = true from ha)
+      | int i =>
+        simp only [planIndex] at hact
+        (repeat' split at hact) <;> first | (cases hact; trivial) | cases hact
+      | label p =>
+        simp only [planIndex] at hact
+        (repeat' split at hact) <;> first | (cases hact; trivial) | cases hact
+      | slice sl =>
+        simp only [planIndex] at hact
+        split at hact
+        · cases hact
+        · rename_i a hadj
+          cases hact
+          apply dupFreeActX_replace _ _ rfl
+          show (World.keptOf _ (allFalse _)).Nodup
+          rw [World.keptOf_allFalse]
+          exact pick_nodup old _ holdn (sliceIdx_nodup hadj)
+      | mask bs =>
+        simp only [planIndex] at hact
+        split at hact
+        · cases hact
+        · cases hact
+          apply dupFreeActX_replace _ _ rfl
+          show (World.keptOf _ (allFalse _)).Nodup
+          rw [World.keptOf_allFalse]
+          exact pick_nodup old _ holdn (trueIdx_nodup bs 0)
+  | setitem h i a c =>
+    simp only [planG] at hact
+    split at hact
+    · cases hact
+    · split at hact
+      · cases hact
+      · cases hact
+        apply dupFreeActX_of_kept_nil
+        have : c = true := ha
+        simp [this, World.keptOf]
+  | setslice h sl it c => exact ha.elim
+  | delitem h i =>
+    simp only [planG] at hact
+    split at hact <;> cases hact
+    exact dupFreeActX_of_kept_nil _ _ rfl
+  | delslice h sl =>
+    simp only [planG] at hact
+    split at hact <;> cases hact
+    exact dupFreeActX_of_kept_nil _ _ rfl
+  | add h it =>
+    simp only [planG] at hact
+    split at hact
+    · cases hact
+    · split at hact <;> cases hact
+      exact dupFreeActX_of_kept_nil _ _ (World.keptOf_allTrue _)
+  | iadd h it =>
+    simp only [planG] at hact
+    split at hact
+    · cases hact
+    · split at hact <;> cases hact
+      exact dupFreeActX_of_kept_nil _ _ (World.keptOf_allTrue _)
+  | sub h it =>
+    simp only [planG] at hact
+    split at hact
+    · cases hact
+    · split at hact <;> cases hact
+      exact dupFreeActX_of_kept_nil _ _ (World.keptOf_allTrue _)
+  | isub h it =>
+    simp only [planG] at hact
+    split at hact
+    · cases hact
+    · rename_i old hold
+      have holdn : old.Nodup := by rw [← (World.view_atoms_ok hold).1]; exact World.atomsOf_nodup hn h
+      split at hact <;> cases hact
+      apply dupFreeActX_replace _ _ rfl
+      show (World.keptOf _ (allFalse _)).Nodup
+      rw [World.keptOf_allFalse]
+      exact (List.filter_sublist).nodup holdn
+  | mul h n =>
+    simp only [planG] at hact
+    split at hact <;> cases hact
+    exact dupFreeActX_of_kept_nil _ _ (World.keptOf_allTrue _)
+  | imul h n =>
+    simp only [planG] at hact
+    split at hact
+    · cases hact
+    · split at hact <;> cases hact
+      · exact dupFreeActX_of_kept_nil _ _ rfl
+      · exact dupFreeActX_of_kept_nil _ _ (World.keptOf_allTrue _)
+  | copy h =>
+    simp only [planG] at hact
+    split at hact <;> cases hact
+    exact dupFreeActX_of_kept_nil _ _ (World.keptOf_allTrue _)
+  | pickle h proto =>
+    simp only [planG] at hact
+    split at hact
+    · cases hact
+    · split at hact <;> cases hact
+      · exact dupFreeActX_of_kept_nil _ _ (World.keptOf_allTrue _)
+      · trivial
+  | deepcopy h =>
+    simp only [planG] at hact
+    split at hact <;> cases hact
+    exact dupFreeActX_of_kept_nil _ _ (World.keptOf_allTrue _)
+  | setLat h src =>
+    simp only [planG] at hact
+    (repeat' split at hact) <;> first | (cases hact; trivial) | cases hact
+  | pop h i =>
+    simp only [planG] at hact
+    split at hact <;> cases hact
+    exact dupFreeActX_of_kept_nil _ _ rfl
+  | remove h a =>
+    simp only [planG] at hact
+    (repeat' split at hact) <;> first | (cases hact; exact dupFreeActX_of_kept_nil _ _ rfl) | cases hact
+  | reverse h =>
+    simp only [planG] at hact
+    split at hact <;> cases hact
+    exact dupFreeActX_of_kept_nil _ _ rfl
+  | sort h =>
+    simp only [planG] at hact
+    split at hact <;> cases hact
+    exact dupFreeActX_of_kept_nil _ _ rfl
+  | clear h =>
+    simp only [planG] at hact
+    split at hact <;> cases hact
+    exact dupFreeActX_of_kept_nil _ _ rfl
+  | drop h =>
+    simp only [planG] at hact
+    split at hact <;> cases hact
+    trivial
+  | ctor src lat =>
+    simp only [planG] at hact
+    split at hact
+    · split at hact <;> cases hact
+      exact dupFreeActX_of_kept_nil _ _ rfl
+    · split at hact
+      · cases hact
+      · rename_i xs isS hit
+        split at hact <;> cases hact
+        apply dupFreeActX_replace _ _ rfl
+        exact (copyFlags_dflt_kept isS [] xs).1
+
+/-- the side condition restricted to the steps that need it -/
+def DupFreeHistExplicit : World → List Op → Prop
+  | _, [] => True
+  | w, op :: ops => (AutoDupFree op ∨ World.DupFreeX w op) ∧ DupFreeHistExplicit (w.stepFull op).1 ops
+
+/-- **no_alias**, explicit form: only an explicit `copy=False`, a slice assignment and a selection by index array /
+tuple / list carry a hypothesis (and for a slice assignment with the default flag it is
+`dupFreeX_setslice_copy`: no member of the slice listed twice) -/
+theorem no_alias_explicit {w : World} (hw : Wf w) (hn : w.NodupInv) (ops : List Op) (hd : DupFreeHistExplicit w ops) :
+    (w.run ops).NodupInv := by
+  induction ops generalizing w with
+  | nil => exact hn
+  | cons op ops ih =>
+    have h1 : World.DupFreeX w op := by
+      rcases hd.1 with h | h
+      · exact dupFreeX_auto hn h
+      · exact h
+    exact ih (World.stepFull_wf hw op) (World.stepFull_nodupX hw hn op h1) hd.2
+
+/-- histories without `copy=False`, slice assignment and index-array selections never put an atom into two slots -/
+instance (op : Op) : Decidable (AutoDupFree op) := by
+  cases op <;> unfold AutoDupFree <;> infer_instance
+
+instance decDupFreeHistExplicit : (w : World) → (ops : List Op) → Decidable (DupFreeHistExplicit w ops)
+  | _, [] => isTrue trivial
+  | w, op :: ops => @instDecidableAnd _ _ _ (decDupFreeHistExplicit (w.stepFull op).1 ops)
+
+theorem dupFreeHistExplicit_of_auto (w : World) (ops : List Op) (h : ∀ op ∈ ops, AutoDupFree op) :
+    DupFreeHistExplicit w ops := by
+  induction ops generalizing w with
+  | nil => trivial
+  | cons op ops ih => exact ⟨Or.inl (h op (by simp)), ih _ (fun o ho => h o (List.mem_cons_of_mem _ ho))⟩
+
+theorem no_alias_auto {w : World} (hw : Wf w) (hn : w.NodupInv) (ops : List Op) (h : ∀ op ∈ ops, AutoDupFree op) :
+    (w.run ops).NodupInv :=
+  no_alias_explicit hw hn ops (dupFreeHistExplicit_of_auto w ops h)
+
 /-- a duplicate that the caller asked for does end up in two slots: `s.append(s[0], copy=False)` -/
 theorem alias_when_asked :
     ¬ (World.empty.run [.mkStru, .addNew 0 1, .append 0 (.mem 0 0) .no]).NodupInv := by
@@ -1092,7 +1398,7 @@ def goodHistory3 : List Op :=
    .setslice 0 ⟨none, none, some 3⟩ (.stru 0) true, .sort 0, .isub 0 (.list [.mem 0 0]),
    .setslice 2 ⟨some 1, none, some 2⟩ (.gen [.mem 2 3, .mem 2 1]) true, .extend 4 (.tolist 4) .dflt]
 example : World.DupFreeHistX World.empty goodHistory3 := by decide
-/-- … which the restricted side condition of `no_alias_partial` does not admit -/
+/-- … which the restricted side condition of `no_alias_partial` rejects -/
 example : ¬ World.DupFreeHist World.empty goodHistory3 := by decide
 example : (World.empty.run goodHistory3).NodupInv := no_alias _ _ World.empty_wf empty_nodupInv (by decide)
 example : (World.empty.run goodHistory3).abs.lists =
@@ -1129,5 +1435,22 @@ example : selPositions world3.pay [0, 1, 2] (.slice ⟨none, none, some (-2)⟩)
     selPositions world3.pay [0, 1, 2] (.mask [true, false]) = .error .index := by decide
 example : ((world3.stepFull (.setslice 0 ⟨none, none, some 2⟩ (.list [.mem 1 0, .mem 0 0]) true)).1.atomsOf 0) = [4, 1, 0] := by
   decide
+
+/-- for `dupFreeX_auto` / `no_alias_explicit` / `dupFreeX_setslice_copy` -/
+example : AutoDupFree (.extend 0 (.tolist 1) .dflt) ∧ AutoDupFree (.pickle 0 0) ∧
+    AutoDupFree (.getitem 0 (.slice ⟨none, none, some (-2)⟩)) ∧ AutoDupFree (.isub 0 (.stru 1)) ∧
+    ¬ AutoDupFree (.append 0 (.pool 0) .no) ∧ ¬ AutoDupFree (.getitem 0 (.arr [0, 0])) := by decide
+example : DupFreeHistExplicit World.empty goodHistory3 := by decide
+example : DupFreeHistExplicit World.empty goodHistory := by decide
+example : (World.empty.run goodHistory3).NodupInv := no_alias_explicit World.empty_wf empty_nodupInv _ (by decide)
+theorem world3_nodup : world3.NodupInv :=
+  no_alias World.empty _ World.empty_wf empty_nodupInv (by decide)
+example : World.DupFreeX world3 (.setslice 0 ⟨none, none, some 2⟩ (.list [.mem 1 0, .mem 0 0]) true) :=
+  dupFreeX_setslice_copy (w := world3) (h := 0) (sl := ⟨none, none, some 2⟩) (it := .list [.mem 1 0, .mem 0 0])
+    (old := [0, 1, 2]) (xs := [3, 0]) (b := false) (a := (0, 3, 2)) world3_nodup
+    (by decide : world3.view.atoms 0 = .ok [0, 1, 2])
+    (by decide : world3.view.iter (.list [.mem 1 0, .mem 0 0]) = .ok ([3, 0], false))
+    (by decide : sliceAdjust ([0, 1, 2] : List Nat).length ⟨none, none, some 2⟩ = .ok (0, 3, 2))
+    (by decide)
 
 end DS.Props.C08
